@@ -1,6 +1,7 @@
 //! Bounded stand-in for the e-graph level clauses of C05 (matches are represented), C09 (insertion is canonical) and
 //! C13 (equalities are never lost, old handles stay usable, slots only shrink, the progress measure is monotone) — NOT a proof.
 //! host: src/egraph/mod.rs
+//! functions: ematch_all EGraph::add_expr EGraph::find_applied_id
 //! Bound: 150 (deep: 2000) pseudo-random histories: one term of depth <= 3 over a lambda/arithmetic language with 3 slot
 //! names, all of its subterms inserted and their handles kept, a random subset of 16 rules (binders, commutativity,
 //! rules that make slots redundant, native substitution), <= 3 rounds of apply_rewrites, <= 200 nodes; plus 8 hand-written
